@@ -77,7 +77,8 @@ def judge_bytes(ctx, curve, dom, data, cls, key, container="string", enc_hint="?
         outcome, got = ("reject" if container != "string" else "raised %s" % type(ex).__name__), None
     except Exception as ex:
         outcome, got = "raised %s: %s" % (type(ex).__name__, ex), None
-    ctx.case(cls, key="%s|%s|%s|%s|%s" % (key, enc, container, want, reason))
+    ctx.case(cls, key="%s|%s|%s|%s|%s" % (key, enc, container, want, reason),
+             sample=dict(curve=curve.name, container=container, data=data, validator=want, reason=reason, library=outcome) if ctx.want(cls) else None)
     if outcome != want or (want == "accept" and got != P):
         if want == "reject" and outcome == "accept":
             mech = KF_2T if tt else "invalid_public_key_accepted:" + reason
